@@ -22,12 +22,12 @@ add("C20", "exploration",
     "DESIGN.md 4/C20")
 
 add("C11", "exploration",
-    "property-based differential testing (proptest) against naive O(n^2) coefficient algebra: all operator forms, scalar/linear/FFT product paths, dft/idft round trip and values at roots of unity",
+    "property-based differential testing (proptest) against naive O(n^2) coefficient algebra: all operator forms, scalar/linear/FFT product paths, dft/idft round trip and values at roots of unity; thorough tier adds a coverage-guided libFuzzer target (cargo-fuzz) on the same case structure and oracle",
     "Generated real and complex polynomial pairs (degree 0..40 quick / 0..128 thorough, structured shapes and power-of-two boundary lengths) are pushed through every owned/borrowed/assigning operator form and compared coefficient-wise with naive harness algebra under a stated rounding allowance ((16+N) eps |a|_1|b|_1 + 1.5 tol for FFT size N; >=10x measured margin); degree, commutativity, pointwise product and transform identities are checked on the same cases.",
     "Exploration only. Trusts naive harness arithmetic; FFT noise allowance grows linearly with transform size (calibrated, see DESIGN C11).",
     "DESIGN.md 4/C11")
 add("C12", "exploration",
-    "property-based testing (proptest): reconstruction dividend = q*d + r in naive harness arithmetic with a backward-error allowance, degree of remainder, forward-error (a-posteriori recurrence) allowance for exact multiples, error on zero divisor",
+    "property-based testing (proptest): reconstruction dividend = q*d + r in naive harness arithmetic with a backward-error allowance, degree of remainder, forward-error (a-posteriori recurrence) allowance for exact multiples, error on zero divisor; thorough tier adds a coverage-guided libFuzzer target (cargo-fuzz) on the same case structure and oracle",
     "Generated dividends/divisors (real and complex, exact multiples, higher-degree and constant divisors, zero polynomial) with the Euclidean identity, remainder degree and remainder-vanishing oracles.",
     "Exploration only. For ill-conditioned divisors the exact-multiple remainder allowance grows with the a-posteriori amplification factor, so small defects there may be masked.",
     "DESIGN.md 4/C12")
@@ -54,7 +54,7 @@ add("C08", "exploration",
     "DESIGN.md 4/C08")
 add("C14", "exploration",
     "property-based testing (proptest): polynomials expanded from grid-constructed separated roots (real, conjugate pairs, complex, sparse x^n-c), one-to-one root matching oracle; exhaustive orthogonal-polynomial zeros against recurrence-based bisection",
-    "Generated polynomials of degree 1-10 with known separated roots: Ok required, exactly degree-many results matched one-to-one within a tolerance-scaled bound, conjugation closure; zeros of Legendre/Hermite (n<=16) and Laguerre (n<=12) enumerated completely against an independent reference.",
+    "Generated polynomials of degree 1-10 with known separated roots: Ok required, exactly degree-many results matched one-to-one within a tolerance-scaled bound, conjugation closure, common real/complex factors on all coefficients (incl. purely imaginary leading coefficients); zeros of Legendre/Hermite (n<=16) and Laguerre (n<=14, with the root tolerance below the leading coefficient 1/n!) enumerated completely against an independent reference.",
     "Exploration only; tolerance range starts at 10x the a-priori evaluation noise floor; n_max fixed to 200.",
     "DESIGN.md 4/C14")
 
